@@ -33,6 +33,7 @@ def ops_for(cfg):
     O['rejected'] = (['exc2'], [])
     O['fragment'] = (['frag1', 'valid'], [])
     if tr == 'udp':
+        O['connect-error'] = ('udp-connect-error', None)
         O['icmp'] = (['icmp'], [])
         O['senderr'] = (['senderr-hostunreach'], [])
         O['ok+icmp'] = (['valid+icmp'], [])
@@ -92,6 +93,15 @@ def run_history(cfg, hist, final=True):
         elif a == 'newloop-open':
             s.newloop_open()
             last_ok_fd = None
+        elif a == 'udp-connect-error':
+            s.peer.forced_udp_conn = ['netunreach'] * (cfg['R'] + 1)
+            obs = s.request(['valid'], [])
+            s.peer.forced_udp_conn = []
+            last_ok_fd = None
+            if n_open(s) > 1:
+                vio.append(('at-most-one', f'{n_open(s)} open after a failed connect'))
+            if obs.result[0] == 'hang':
+                vio.append(('terminates', obs.result[1]))
         elif a == 'ka-toggle':
             s.p.keep_alive = not s.p.keep_alive
             last_ok_fd = None
